@@ -11,8 +11,8 @@
    element     [t, leaf, fits, n, runs, kids]
                  leaf = TRUE : opaque value of n bytes described by runs
                  leaf = FALSE: container, kids = sequence of elements
-                 fits = FALSE: the element (header or announced value) does not lie entirely
-                               inside its parent  (only in decoder inputs, never in Encode)
+                 fits = FALSE: the announced value does not lie entirely inside its parent, or
+                               (Cut) the header itself is truncated  (only in decoder inputs)
    descriptor  [name, t, kind, fixed, ic, sub, elem]
                  kind in uint bool bytes text name model repeated map
                  fixed = 0 | 1 | 2 | 4 | 8 (uint only)     ic = ignore_critical of a ModelField
@@ -57,6 +57,11 @@ BytesToRuns(bs) ==
 RunsToBytes(runs) == Flat([i \in 1 .. Len(runs) |-> [j \in 1 .. runs[i].r |-> runs[i].v]])   \* short ones only
 
 \* ------------------------------------------------------------------ elements
+\* A *cut* element: the bytes left at the end of a level do not even hold a complete Type and Length
+\* (a multi-byte 0xFD/0xFE/0xFF number is truncated). Encoded as the otherwise impossible combination
+\* leaf = FALSE with non-empty runs (= the raw bytes that are there); fits = FALSE.
+Cut(raw)  == [t |-> <<>>, leaf |-> FALSE, fits |-> FALSE, n |-> Len(raw), runs |-> BytesToRuns(raw), kids |-> <<>>]
+IsCut(e)  == ~e.leaf /\ e.runs # <<>>
 Leaf(t, n, runs) == [t |-> t, leaf |-> TRUE, fits |-> TRUE, n |-> n, runs |-> runs, kids |-> <<>>]
 Node(t, kids)    == [t |-> t, leaf |-> FALSE, fits |-> TRUE, n |-> 0, runs |-> <<>>, kids |-> kids]
 RECURSIVE ValLen(_), Size(_), SeqSize(_)
@@ -171,7 +176,7 @@ Res(ok, fv, why) == [ok |-> ok, fv |-> fv, why |-> why]
 Rej(st, why, br) == [st |-> [st EXCEPT !.status = "reject", !.why = why], branch |-> br]
 Ign(st, br)      == [st |-> [st EXCEPT !.pos = @ + 1], branch |-> br]
 BadBranch(why)   == CASE why = "uint-width" -> "BadUintWidth"
-                      [] why = "name-component-overrun" -> "BadName"
+                      [] why \in {"name-component-overrun", "name-truncated-number"} -> "BadName"
                       [] OTHER -> "BadNested"
 
 RECURSIVE ParseValue(_, _), ScanStep(_, _, _, _), ScanLoop(_, _, _, _)
@@ -185,7 +190,8 @@ ParseValue(d, e) ==
     [] d.kind = "name" -> (IF \A i \in 1 .. Len(e.kids) : e.kids[i].fits
                            THEN Res(TRUE, [k |-> "name", comps |-> [i \in 1 .. Len(e.kids) |->
                                               [t |-> e.kids[i].t, runs |-> e.kids[i].runs]]], "")
-                           ELSE Res(FALSE, None, "name-component-overrun"))
+                           ELSE Res(FALSE, None, IF \E i \in 1 .. Len(e.kids) : IsCut(e.kids[i])
+                                                 THEN "name-truncated-number" ELSE "name-component-overrun"))
     [] d.kind = "model" -> LET r == ScanLoop(d.sub, d.ic, e.kids, InitSt(d.sub)) IN
                            (IF r.status = "accept" THEN Res(TRUE, [k |-> "model", v |-> r.out], "")
                             ELSE Res(FALSE, None, d.name \o "/" \o r.why))     \* reasons carry the path of nested fields
@@ -198,7 +204,7 @@ ParseValue(d, e) ==
 Classify(s, ic, input, st) ==
   IF st.pos > Len(input) THEN [cls |-> IF st.want # 0 THEN "end-dangling" ELSE "end-ok", i |-> 0]
   ELSE LET e == input[st.pos] IN
-  IF ~e.fits THEN [cls |-> "overrun", i |-> 0]
+  IF ~e.fits THEN [cls |-> IF IsCut(e) THEN "cut-number" ELSE "overrun", i |-> 0]
   ELSE IF st.want # 0 THEN
       (IF e.t = s[st.want].elem[2].t THEN [cls |-> "map-value", i |-> st.want]
        ELSE IF IsOdd(e.t) /\ ~ic THEN [cls |-> "map-other-critical", i |-> 0]
@@ -214,6 +220,7 @@ Classify(s, ic, input, st) ==
 BadBranches == {"BadUintWidth", "BadName", "BadNested"}
 BranchesOf(cls) ==
   CASE cls = "end-ok" -> {"Done"} [] cls = "end-dangling" -> {"DoneDangling"} [] cls = "overrun" -> {"Overrun"}
+    [] cls = "cut-number" -> {"CutNumber"}
     [] cls = "map-value" -> {"MapValue"} \cup BadBranches
     [] cls = "map-other-critical" -> {"RejectCritical"} [] cls = "map-other-ignored" -> {"IgnoredInMap"}
     [] cls = "unknown-noncritical" -> {"IgnoredNonCritical"} [] cls = "unknown-critical-flagged" -> {"IgnoredCriticalByFlag"}
@@ -230,6 +237,7 @@ ScanStep(s, ic, input, st) ==
   CASE k.cls = "end-ok" -> [st |-> [st EXCEPT !.status = "accept"], branch |-> "Done"]
     [] k.cls = "end-dangling" -> Rej(st, "map-value-missing", "DoneDangling")
     [] k.cls = "overrun" -> Rej(st, "overrun", "Overrun")
+    [] k.cls = "cut-number" -> Rej(st, "truncated-number", "CutNumber")
     [] k.cls = "map-value" ->
          LET r == ParseValue(s[i].elem[2], e) IN
          (IF r.ok THEN [st |-> [st EXCEPT !.pos = @ + 1, !.want = 0, !.key = None,
@@ -265,7 +273,7 @@ ScanLoop(s, ic, input, st) == IF st.status # "run" THEN st
                               ELSE ScanLoop(s, ic, input, ScanStep(s, ic, input, st).st)
 RunScan(s, ic, input) == ScanLoop(s, ic, input, InitSt(s))
 
-Branches == {"Done", "DoneDangling", "Overrun", "MapValue", "MapKey", "IgnoredInMap", "IgnoredNonCritical",
+Branches == {"Done", "DoneDangling", "Overrun", "CutNumber", "MapValue", "MapKey", "IgnoredInMap", "IgnoredNonCritical",
              "IgnoredCriticalByFlag", "RejectCritical", "RepeatedStays", "FieldFound", "SkippedFound",
              "BadUintWidth", "BadName", "BadNested"}
 =============================================================================
